@@ -320,11 +320,17 @@ def merge_stats(files, bins):
         for k in ("labels", "excluded", "known_hits"):
             for a, b in s.get(k, {}).items():
                 tot[k][a] = tot[k].get(a, 0) + b
-        for x in s.get("samples", []):
-            if len(tot["samples"]) < 12 and x not in tot["samples"]:
-                tot["samples"].append(x)
+        tot.setdefault("_sample_lists", []).append(s.get("samples", []))
         if os.path.exists(f + ".hashes"):
             hashfiles.append(f + ".hashes")
+    # samples: the reservoir entries (positions 3..7 of every worker) before the workers' first three cases, round robin
+    # over the workers, so that the ten that are kept are spread over the run
+    for pos in (3, 4, 5, 6, 7, 0, 1, 2):
+        for lst in tot.get("_sample_lists", []):
+            if pos < len(lst) and len(tot["samples"]) < 12 and lst[pos] not in tot["samples"] and \
+               not any(lst[pos][:60] == y[:60] for y in tot["samples"]):
+                tot["samples"].append(lst[pos])
+    tot.pop("_sample_lists", None)
     distinct = 0
     if hashfiles:
         r = subprocess.run([bins["rand"], "--merge-hashes"] + hashfiles, stdout=subprocess.PIPE, text=True, env=env_for(".", "quick", ""))
